@@ -58,22 +58,16 @@ Proof. destruct m; reflexivity. Qed.
 Lemma deny_envelope m r : deny m r = envelope m Deny r.
 Proof. destruct m; reflexivity. Qed.
 
-Lemma unduck_duck r : unduck (duck ++ r) = Some r.
+Lemma unduck_duck r : unduck (duck ++ r) = r.
 Proof. reflexivity. Qed.
 Lemma verdict_of_str_str v : verdict_of_str (verdict_str v) = Some v.
 Proof. destruct v; vm_compute; reflexivity. Qed.
 
+Lemma read_pair_ok v r : read_pair (Some (JStr (verdict_str v))) (Some (JStr (duck ++ r))) = Some (v, r).
+Proof. unfold read_pair. rewrite verdict_of_str_str, unduck_duck. reflexivity. Qed.
+
 Lemma decode_envelope m v r : decode m (envelope m v r) = Some (v, r).
-Proof.
-  destruct m; unfold envelope, claude_env, gemini_env, cursor_env, decode.
-  - replace (str_eqb $"hookSpecificOutput" $"hookSpecificOutput" && str_eqb $"hookEventName" $"hookEventName"
-             && str_eqb $"PreToolUse" $"PreToolUse" && str_eqb $"permissionDecision" $"permissionDecision"
-             && str_eqb $"permissionDecisionReason" $"permissionDecisionReason") with true by (vm_compute; reflexivity).
-    rewrite verdict_of_str_str, unduck_duck. reflexivity.
-  - replace (str_eqb $"decision" $"decision" && str_eqb $"reason" $"reason") with true by (vm_compute; reflexivity).
-    rewrite verdict_of_str_str, unduck_duck. reflexivity.
-  - rewrite !str_eqb_refl. cbn [andb]. rewrite verdict_of_str_str, unduck_duck. reflexivity.
-Qed.
+Proof. destruct m; exact (read_pair_ok v r). Qed.
 
 Lemma decode_empty m : decode m (JObj []) = None.
 Proof. destruct m; reflexivity. Qed.
